@@ -469,9 +469,62 @@ def r10_12(prog: Program, rep):
            "lookup evicts and closes it and the next step fails with 'mmap closed or invalid' (fsck, write_commit_graph)", lazy[0].lineno if lazy else f.node.lineno)
 
 
+def r10_13(prog: Program, rep):
+    """ROOTS = THE REFS OF EVERY WORKTREE.  A repository with linked worktrees has one object store and one HEAD (plus refs/bisect/,
+    refs/worktree/, refs/rewritten/) per worktree, stored under <common dir>/worktrees/<id>/; a refs container shows only those of
+    the worktree it was opened in.  The root collection of find_reachable_objects therefore (a) lists the `worktrees` directory of
+    the common dir, (b) also visits the common dir itself (the main worktree's HEAD, when gc runs in a linked one), and (c) feeds
+    what it finds into the work list before the drain loop."""
+    m = prog.module(GC)
+    fr = prog.func(GC, "find_reachable_objects")
+    from sa.consts import Folder
+    F = Folder(prog, m)
+
+    def lists_worktrees(fn):
+        for x in ast.walk(fn.node):
+            if isinstance(x, ast.Call) and dotted(x.func) in ("os.listdir", "os.scandir") and x.args:
+                if any(F.try_fold(y) in (b"worktrees", "worktrees") for y in ast.walk(x.args[0])):
+                    return x
+        return None
+
+    def visits_common(fn):
+        pathish = {t.id for x in ast.walk(fn.node) if isinstance(x, ast.Assign) and isinstance(x.value, ast.Attribute) and x.value.attr in ("path", "commondir", "_commondir")
+                   for t in x.targets if isinstance(t, ast.Name)}
+        for x in ast.walk(fn.node):
+            if isinstance(x, ast.List) and any((isinstance(e, ast.Name) and e.id in pathish) or (isinstance(e, ast.Attribute) and e.attr == "path") for e in x.elts):
+                return True
+        return False
+
+    cands = [(fr, None)]
+    for x in ast.walk(fr.node):
+        if isinstance(x, ast.Call) and isinstance(x.func, ast.Name) and x.func.id in m.funcs:
+            cands.append((m.funcs[x.func.id], x))
+    hit = [(fn, call, lists_worktrees(fn)) for fn, call in cands if lists_worktrees(fn) is not None]
+    rep.ob("R10.13", GC, fr.qual, "the root collection lists <common dir>/worktrees", bool(hit),
+           "only the refs container's own keys are roots: HEAD and the other per-worktree refs of the OTHER worktrees are not, and the commits on "
+           "another worktree's detached HEAD are pruned (git adds the HEAD of every worktree as a tip)", fr.node.lineno)
+    if not hit:
+        return
+    fn, call, _ = hit[0]
+    rep.ob("R10.13", GC, fn.qual, "the common dir itself is among the git dirs visited (main worktree's HEAD)", visits_common(fn),
+           "run from a linked worktree, the main worktree's HEAD is not a root", fn.node.lineno)
+    if call is not None:
+        g = cfg_of(prog, fr)
+        feeds = False
+        for x in ast.walk(fr.node):
+            if isinstance(x, ast.For) and x.iter is call and isinstance(x.target, ast.Name):
+                feeds = any(isinstance(c, ast.Call) and isinstance(c.func, ast.Attribute) and c.func.attr in ("append", "appendleft", "add") and c.args
+                            and isinstance(c.args[0], ast.Name) and c.args[0].id == x.target.id and "pending" in norm(c.func.value) for c in ast.walk(x))
+        drain = [i for i, n in g.nodes.items() if n.kind == "test" and norm(n.ast) == "pending"]
+        cn = g.nodes_containing(call)
+        rep.ob("R10.13", GC, fr.qual, "what the other worktrees' refs point at is put on the work list before it is drained",
+               feeds and bool(drain) and bool(cn) and not must_pass(g, drain, cn), "the values are computed but never become roots", call.lineno)
+
+
 def run(prog: Program, rep, tier="quick"):
     rep.rule("R10.11", "AGE = NEWEST COPY: get_object_mtime returns the maximum over the loose file and every pack, never the first copy found")
     rep.rule("R10.12", "ITERATION ORDER: __iter__ lists loose objects before packs and rescans the pack directory until no new pack appears; fan-out listings tolerate a vanished directory")
+    rep.rule("R10.13", "ROOTS = the refs of EVERY worktree: the root collection lists <common dir>/worktrees and the common dir itself")
     rep.rule("R10.9", "gc.pruneExpire is read as a number of seconds, never as None (= no grace at all)")
     rep.rule("R10.8", "READ-ORDER: refs are read loose first, packed second (the order in which pack_refs moves them)")
     rep.rule("R10.7", "FRESHEN-OR-WRITE: DiskObjectStore.add_object refreshes the mtime of an existing loose object or writes it - never just returns")
@@ -499,6 +552,8 @@ def run(prog: Program, rep, tier="quick"):
     r10_9(prog, rep)
     r10_11(prog, rep)
     r10_12(prog, rep)
+    r10_13(prog, rep)
+    rep.floor("R10.13", 1)
     from sa.common import share
     from rules import c14
     share(rep, lambda: c14.r14_2(prog, rep), "R10.10", lambda o: "MIDX" in o.key or "multi-pack" in o.key or "vanished pack" in o.key or "protected region" in o.key,
